@@ -217,7 +217,7 @@ namespace Parsed
 variable {R : Type}
 
 def assocInsert {β : Type} (m : List (Str × β)) (k : Str) (v : β) : List (Str × β) :=
-  if m.any (·.1 == k) then m.map (fun e => if e.1 == k then (k, v) else e) else m ++ [(k, v)]
+  (k, v) :: m.filter (·.1 != k)
 
 def assocGet? {β : Type} (m : List (Str × β)) (k : Str) : Option β := (m.find? (·.1 == k)).map (·.2)
 
